@@ -104,6 +104,12 @@ def make(sx, producer, topo, prefix="p"):
         if producer == "merge-cloud-first":
             return M.mesh.merge([cloud, b]), [(cloud, Pc), (b, Pb)], Pc + Pb
         return M.mesh.merge([b, cloud]), [(b, Pb), (cloud, Pc)], Pb + Pc
+    if producer == "merge-extra-edge":
+        # a surface that also declares an edge belonging to no face (to a vertex no face uses), merged with a triangle
+        Pa = _coords(sx, prefix + "a", 4)
+        a = meshgen.build([_v3(sx, p) for p in Pa], [(2, 3)], [(0, 1, 2)], ())
+        b, _, Pb = make(sx, "literal", "tri", prefix + "b")
+        return M.mesh.merge([a, b]), [(a, Pa), (b, Pb)], Pa + Pb
     if producer == "merge-one":
         src, _, P = make(sx, "literal", topo, prefix)
         return M.mesh.merge([src]), [(src, P)], P
@@ -328,6 +334,16 @@ def edits(producers, topos):
             if wantF and not wantC:
                 sx.check([tuple(int(v) for v in f) for f in out.faces] == wantF, "merged faces are the inputs' faces shifted by the running vertex count" + tag,
                          detail=str([tuple(int(v) for v in f) for f in out.faces]))
+            # every edge of every input is an edge of the result (shifted), and nothing else is
+            allE, off2 = set(), 0
+            for m in srcs:
+                if hasattr(m, "edges"):
+                    allE |= set(tuple(sorted((off2 + int(u), off2 + int(v)))) for (u, v) in m.edges)
+                off2 += len(m.vertices)
+            if hasattr(out, "edges"):
+                sx.check(set(tuple(sorted((int(u), int(v)))) for (u, v) in out.edges) == allE,
+                         "the edges of a merge are exactly the inputs' edges shifted by the running vertex count" + tag,
+                         detail=str(sorted(tuple(sorted((int(u), int(v)))) for (u, v) in out.edges)))
             if wantC:
                 sx.check([tuple(int(v) for v in c) for c in out.cells] == wantC, "merged cells are the inputs' cells shifted by the running vertex count" + tag)
             if wantE and not wantF and not wantC:
@@ -445,7 +461,7 @@ def obligations(tier):
            note="rotate with the rotation given as matrix / Euler angles / Rotation object (Rotation replaced by a twin obeying its documented contract)"),
         Ob("concrete-histories", concrete_histories, covers=COVERS, split=4,
            note="float-array ownership/aliasing: copy / merge / boundary / reorder then translate by a vector or by one of the mesh's own vertices"),
-        Ob("edits", edits(["copy", "copy-attributes", "merge-one", "merge-self", "merge-two", "merge-cloud-first", "merge-cloud-last"], ["tri"] if q else ["tri", "tri2", "tet"]), covers=COVERS, split=6,
+        Ob("edits", edits(["copy", "copy-attributes", "merge-one", "merge-self", "merge-two", "merge-cloud-first", "merge-cloud-last", "merge-extra-edge"], ["tri"] if q else ["tri", "tri2", "tet"]), covers=COVERS, split=6,
            note="editing one side of a copy/merge never shows on the other"),
     ]
     if not q:
